@@ -630,6 +630,13 @@ class Ref:
         self.insts.pop(op["inst"], None)
         return {"res": None, "exc": None, "execs": [], "state": None, "noop": True}
 
+    def op_setopt(self, op, epoch):
+        """``sm.allow_event_without_transition = <bool>`` on a live machine (a public attribute that
+        the engines read at every event)."""
+        inst = self.insts[op["inst"]]
+        inst.allow = bool(op["allow"])
+        return {"res": None, "exc": None, "execs": [], "state": inst.state}
+
     def op_noop(self, op, epoch):
         return {"res": None, "exc": None, "execs": [], "state": None, "noop": True}
 
